@@ -223,6 +223,67 @@ def run_retry(ctx):
                 terms.append("exec_retry (%d) %s" % (n, flaky.model_list()))
                 meta.append(("run-store", res, replay))
 
+    # ---- a custom retry decorator is applied once per executed call / store operation: a decorator that keeps its attempt
+    # budget in the closure it creates per decoration gives EVERY call its own n attempts, also when several calls share
+    # one function and several stores one class
+    def budget_retry(n, log):
+        def dec(fn):
+            state = {"left": n}
+            log.append(fn)
+
+            def wrapper(*a, **k):
+                while True:
+                    state["left"] -= 1
+                    try:
+                        return fn(*a, **k)
+                    except OSError:
+                        if state["left"] <= 0:
+                            raise
+            return wrapper
+        return dec
+
+    for n in (2, 3):
+        for workers in (1, 3):
+            attempts = {}
+
+            def flaky_fn(key):
+                attempts[key] = attempts.get(key, 0) + 1
+                if attempts[key] < n:
+                    raise OSError("transient %r" % (key,))
+                return key
+
+            class BStore(uberjob.ValueStore):
+                def __init__(self, key):
+                    self.key, self.v, self.t = key, None, None
+
+                def read(self):
+                    flaky_fn(("read", self.key))
+                    return self.v
+
+                def write(self, v):
+                    flaky_fn(("write", self.key))
+                    self.v, self.t = v, dt.datetime(2022, 1, 1)
+
+                def get_modified_time(self):
+                    return self.t
+            plan, reg = uberjob.Plan(), uberjob.Registry()
+            nodes = [plan.call(flaky_fn, i) for i in range(4)]
+            for i in (0, 1):
+                reg.add(nodes[i], BStore(i))
+            out = plan.call(lambda *a: list(a), *nodes)
+            log = []
+            replay = {"where": "uberjob.run, per-decoration budget", "attempts": n, "max_workers": workers}
+            try:
+                got = uberjob.run(plan, registry=reg, output=out, retry=budget_retry(n, log), progress=None, max_workers=workers)
+                bad = {k: v for k, v in attempts.items() if v != n}
+                if got != [0, 1, 2, 3] or bad:
+                    ctx.fail("retry:per-call", "with a retry decorator allowing %d attempts per decoration, attempts per call/operation were %r (each needs exactly %d)"
+                             % (n, attempts, n), replay)
+            except uberjob.CallError as e:
+                ctx.fail("retry:per-call", "with a retry decorator allowing %d attempts per decoration, a call that succeeds on attempt %d was reported failed (%r); attempts %r"
+                         % (n, n, e.__cause__, attempts), replay)
+            ctx.case(("retry-per-decoration", n, workers))
+
     outs = core.coq_eval(header, terms, ty="list Z", shard=300, tag="retry")
     for (where, res, replay), o in zip(meta, outs):
         got = [int(x) for x in re.findall(r"-?\d+", o)]
